@@ -33,9 +33,9 @@ theorem bit_set (l : Str) (p : Nat) (v : Bool) (z : Nat) :
   simp only [bit, List.getD_eq_getElem?_getD, List.getElem?_set]
   by_cases h1 : p = z
   · by_cases h2 : p < l.length
-    · simp [h1, h2]; rw [← h1]; simp [h2]
+    · simp [h1]; rw [← h1]; simp [h2]
     · subst h1
-      simp [h2, List.getElem?_eq_none (Nat.le_of_not_lt h2)]
+      simp [h2]
   · simp [h1]
 
 theorem pow_sub_one_inj {j n : Nat} (h : j < n) : 2 ^ j - 1 ≠ 2 ^ n - 1 := by
